@@ -153,3 +153,94 @@ Example C09_lin_source_tie_nonvacuous :
   = [0; 7; CmsLinear.cap; CmsLinear.cap; CmsLinear.cap; CmsLinear.cap] /\
   KernelsCms.gen_merge_linear_n_added 5 7 = 12 /\ KernelsCms.gen_merge_linear_n_records 1 2 = 3.
 Proof. vm_compute. repeat split; reflexivity. Qed.
+
+(* ---------------- source tie (log) ----------------
+   the body of _merge_log16 / _merge_log8's loop over the cells (countmin.py l.1111-1129 / l.1710-1728) and the two
+   counter updates, as regenerated from the source AST on this run (generated/KernelsLog.v, harness/pytrans_log.py):
+   gen_merge_logN_cell (c2v oracle for _counter2value, logq oracle for the expression with np.log, base, the two cells
+   read, max_count, uint_maxval, num_reserved) -> the cell written, float arithmetic and comparisons in PrimFloat.
+   With c2v := the decode table (KernelTieLogMerge.c2v_of) it is the model's merge_cell UNDER the modelling assumption of
+   DESIGN 3.4, stated as the hypothesis log_landsN for the decoded sum of the two cells: whenever that sum reaches the
+   rounding branch, uintN(logq v) + num_reserved is the table's lower neighbour clower_of v.  gen_merge_logN_logq is the
+   np.log expression itself (flog = np.log), equal to the hand transcription KernelTieLogMerge.logq_source *)
+From Sketchnu Require KernelsLog KernelTieLogMerge.
+Theorem C09_log_source_tie : forall (nr umax max_count : Z) (decode : Z -> float) (logq : float -> float) (base : float),
+  (forall mine other : Z, 0 <= nr < 2^16 -> 0 <= umax < 2^16 -> 0 <= mine < 2^16 -> 0 <= other < 2^16 ->
+     KernelTieLogMerge.log_lands16 nr umax max_count decode logq (decode mine + decode other)%float ->
+     KernelsLog.gen_merge_log16_cell (KernelTieLogMerge.c2v_of decode) logq base mine other max_count umax nr =
+     CmsLog.merge_cell16 nr umax max_count decode mine other) /\
+  (forall mine other : Z, 0 <= nr < 2^8 -> 0 <= umax < 2^8 -> 0 <= mine < 2^16 -> 0 <= other < 2^16 ->
+     KernelTieLogMerge.log_lands8 nr umax max_count decode logq (decode mine + decode other)%float ->
+     KernelsLog.gen_merge_log8_cell (KernelTieLogMerge.c2v_of decode) logq base mine other max_count umax nr =
+     CmsLog.merge_cell8 nr umax max_count decode mine other) /\
+  (forall x y : Z, 0 <= x -> 0 <= y -> x + y < 2^64 ->
+     KernelsLog.gen_merge_log16_n_added x y = x + y /\ KernelsLog.gen_merge_log16_n_records x y = x + y /\
+     KernelsLog.gen_merge_log8_n_added x y = x + y /\ KernelsLog.gen_merge_log8_n_records x y = x + y) /\
+  (forall (flog : float -> float) (v : float),
+     (0 <= nr < 2^16 -> KernelsLog.gen_merge_log16_logq flog base nr v = KernelTieLogMerge.logq_source flog base nr v) /\
+     (0 <= nr < 2^8 -> KernelsLog.gen_merge_log8_logq flog base nr v = KernelTieLogMerge.logq_source flog base nr v)).
+Proof.
+  intros nr umax max_count decode logq base.
+  exact (conj (KernelTieLogMerge.tie_merge_log16_cell nr umax max_count decode logq base)
+        (conj (KernelTieLogMerge.tie_merge_log8_cell nr umax max_count decode logq base)
+        (conj KernelTieLogMerge.tie_merge_log_counters
+              (fun flog v => KernelTieLogMerge.tie_merge_log_logq flog base nr v)))).
+Qed.
+Print Assumptions C09_log_source_tie.
+
+(* the merged state assembled from the generated pieces, cell by cell *)
+Theorem C09_log_source_tie_state : forall nr umax max_count decode logq base (a b : CmsLog.lsk),
+  0 <= nr < 2^8 -> 0 <= umax < 2^8 ->
+  (forall r c, 0 <= CmsLog.lcms a r c < 2^16) -> (forall r c, 0 <= CmsLog.lcms b r c < 2^16) ->
+  (forall r c, KernelTieLogMerge.log_lands8 nr umax max_count decode logq
+                 (decode (CmsLog.lcms a r c) + decode (CmsLog.lcms b r c))%float) ->
+  0 <= CmsLog.ln_added a -> 0 <= CmsLog.ln_added b -> CmsLog.ln_added a + CmsLog.ln_added b < 2^64 ->
+  0 <= CmsLog.ln_records a -> 0 <= CmsLog.ln_records b -> CmsLog.ln_records a + CmsLog.ln_records b < 2^64 ->
+  let m := CmsLog.merge_log nr umax max_count decode wrap8 a b in
+  (forall r c, CmsLog.lcms m r c =
+     KernelsLog.gen_merge_log8_cell (KernelTieLogMerge.c2v_of decode) logq base (CmsLog.lcms a r c) (CmsLog.lcms b r c) max_count umax nr) /\
+  CmsLog.ln_added m = KernelsLog.gen_merge_log8_n_added (CmsLog.ln_added a) (CmsLog.ln_added b) /\
+  CmsLog.ln_records m = KernelsLog.gen_merge_log8_n_records (CmsLog.ln_records a) (CmsLog.ln_records b).
+Proof. exact KernelTieLogMerge.tie_merge_log8. Qed.
+Print Assumptions C09_log_source_tie_state.
+
+Theorem C09_log16_source_tie_state : forall nr umax max_count decode logq base (a b : CmsLog.lsk),
+  0 <= nr < 2^16 -> 0 <= umax < 2^16 ->
+  (forall r c, 0 <= CmsLog.lcms a r c < 2^16) -> (forall r c, 0 <= CmsLog.lcms b r c < 2^16) ->
+  (forall r c, KernelTieLogMerge.log_lands16 nr umax max_count decode logq
+                 (decode (CmsLog.lcms a r c) + decode (CmsLog.lcms b r c))%float) ->
+  0 <= CmsLog.ln_added a -> 0 <= CmsLog.ln_added b -> CmsLog.ln_added a + CmsLog.ln_added b < 2^64 ->
+  0 <= CmsLog.ln_records a -> 0 <= CmsLog.ln_records b -> CmsLog.ln_records a + CmsLog.ln_records b < 2^64 ->
+  let m := CmsLog.merge_log nr umax max_count decode wrap16 a b in
+  (forall r c, CmsLog.lcms m r c =
+     KernelsLog.gen_merge_log16_cell (KernelTieLogMerge.c2v_of decode) logq base (CmsLog.lcms a r c) (CmsLog.lcms b r c) max_count umax nr) /\
+  CmsLog.ln_added m = KernelsLog.gen_merge_log16_n_added (CmsLog.ln_added a) (CmsLog.ln_added b) /\
+  CmsLog.ln_records m = KernelsLog.gen_merge_log16_n_records (CmsLog.ln_records a) (CmsLog.ln_records b).
+Proof. exact KernelTieLogMerge.tie_merge_log16. Qed.
+Print Assumptions C09_log16_source_tie_state.
+
+(* base 2, num_reserved = 2, uint_maxval = 6, max_count = 17: decode = 0 1 2 3 5 9 17; flog = floor(log2 x), exact, so the
+   np.log expression is floor(log2(v - 1)): on all 49 pairs the hypothesis log_lands holds and the generated cell
+   function (both widths, logq := the generated np.log expression) is the model's merge_cell *)
+Example C09_log_source_tie_nonvacuous :
+  let dc := fun c => CmsLog.z2f (if c <=? 2 then c else 2 ^ (c - 2) + 1) in
+  let flog := fun x => CmsLog.z2f (Uint63.to_Z (snd (frshiftexp x)) - 2102) in
+  let two := (0x1p+1)%float in
+  let pairs := list_prod (CmsLog.zrange 0 7) (CmsLog.zrange 0 7) in
+  map dc (CmsLog.zrange 0 7) = map CmsLog.z2f [0; 1; 2; 3; 5; 9; 17] /\
+  forallb (fun ab =>
+     let v := (dc (fst ab) + dc (snd ab))%float in
+     let lq8 := KernelsLog.gen_merge_log8_logq flog two 2 in
+     let lq16 := KernelsLog.gen_merge_log16_logq flog two 2 in
+     ((if (PrimFloat.leb v (CmsLog.z2f 2) || PrimFloat.leb (CmsLog.u64_to_float 17) v) then true
+      else (wrap8 (CmsLog.f2z_trunc (lq8 v)) + 2 =? CmsLog.clower_of 2 6 dc v) &&
+           (wrap16 (CmsLog.f2z_trunc (lq16 v)) + 2 =? CmsLog.clower_of 2 6 dc v)) &&
+     (KernelsLog.gen_merge_log8_cell (KernelTieLogMerge.c2v_of dc) lq8 two (fst ab) (snd ab) 17 6 2 =?
+      CmsLog.merge_cell8 2 6 17 dc (fst ab) (snd ab)) &&
+     (KernelsLog.gen_merge_log16_cell (KernelTieLogMerge.c2v_of dc) lq16 two (fst ab) (snd ab) 17 6 2 =?
+      CmsLog.merge_cell16 2 6 17 dc (fst ab) (snd ab)))%bool) pairs = true /\
+  map (fun ab => KernelsLog.gen_merge_log8_cell (KernelTieLogMerge.c2v_of dc) (KernelsLog.gen_merge_log8_logq flog two 2) two
+                   (fst ab) (snd ab) 17 6 2) [(0, 0); (1, 1); (2, 1); (3, 3); (4, 3); (4, 4); (5, 4); (5, 5); (6, 0)]
+  = [0; 2; 3; 4; 5; 5; 6; 6; 6] /\
+  (KernelsLog.gen_merge_log16_n_added 5 7, KernelsLog.gen_merge_log8_n_records 1 2) = (12, 3).
+Proof. vm_compute. repeat split; reflexivity. Qed.
